@@ -167,9 +167,7 @@ class CodeGenerator(abc.ABC):
     def _is_reserved(self, name: str) -> bool:
         return name in self.reserved_names
 
-    def _check_reserved_names(self) -> None:
-        from ..exceptions import ReservedSymbolError
-
+    def _variable_names(self) -> set[str]:
         atoms_ = (
             self.ode.states
             + self.ode.parameters
@@ -178,8 +176,18 @@ class CodeGenerator(abc.ABC):
         )
         # The missing variables (e.g. states of another sub-ODE) are assigned
         # to local variables in the generated functions as well
-        names = {atom.name for atom in atoms_} | set(self.ode.missing_variables)
-        if reserved := {name for name in names if self._is_reserved(name)}:
+        return {atom.name for atom in atoms_} | set(self.ode.missing_variables)
+
+    def _check_reserved_names(self) -> None:
+        from ..exceptions import ReservedSymbolError
+
+        names = self._variable_names()
+        # The Rush-Larsen schemes store the linearization of each state derivative
+        # in a variable called <derivative>_linearized
+        linearized = {f"{der.name}_linearized" for der in self.ode.state_derivatives}
+        if reserved := {
+            name for name in names if self._is_reserved(name) or name in linearized
+        }:
             raise ReservedSymbolError(
                 reserved, reason="the generated code uses these names itself"
             )
